@@ -545,6 +545,9 @@ impl Gen {
             FileSpec { comp, recs }
         }).collect();
         if dirty { let k = self.rng.below(n) as usize; let pool2 = pool.clone(); self.spoil(&mut files[k], &pool2); }
+        // one queue in six ends with an earlier file of the queue again, byte for byte (the same dump or update file
+        // queued twice, something else imported in between): it must be processed again, in its place
+        if files.len() >= 2 && self.rng.chance(1, 6) { let k = self.rng.below(files.len() as u64 - 1) as usize; let again = files[k].clone(); files.push(again); }
         disambiguate(&mut files);
         files
     }
